@@ -52,3 +52,175 @@ def stage_d11(stage, prop, tier, seed, workdir, build, env, log):
     else:
         res["inconclusive"] = [f"D11 witness ended with unexpected status {p.returncode}: {text[-200:]}"]
     return res
+
+
+def _cpu_ticks(pid):
+    try:
+        with open(f"/proc/{pid}/stat") as f:
+            parts = f.read().rsplit(")", 1)[1].split()
+        return int(parts[11]) + int(parts[12])
+    except Exception:
+        return None
+
+
+def _run_watch(cmd, env, cwd, timeout, stall_s=30):
+    """Run cmd; returns (status, output, stalled). stalled=True if the process consumed no CPU for stall_s seconds."""
+    p = subprocess.Popen(cmd, cwd=cwd, env=env, stdout=subprocess.PIPE, stderr=subprocess.STDOUT)
+    t0 = time.time()
+    last_ticks, last_change = _cpu_ticks(p.pid), time.time()
+    import threading
+    out = []
+    th = threading.Thread(target=lambda: out.append(p.stdout.read()))
+    th.start()
+    stalled = False
+    while p.poll() is None:
+        time.sleep(0.5)
+        t = _cpu_ticks(p.pid)
+        if t is not None and t != last_ticks:
+            last_ticks, last_change = t, time.time()
+        if time.time() - last_change > stall_s:
+            stalled = True
+            p.kill()
+            break
+        if time.time() - t0 > timeout:
+            p.kill()
+            break
+    th.join()
+    return p.wait(), (out[0] if out else b"").decode("utf-8", "replace"), stalled
+
+
+def _lock_report(name, text, status, stalled, args):
+    rep = {"engine": name, "evaluations": 0, "counters": {}, "maxima": {}, "sets": {}, "samples": [], "inconclusive": [],
+           "violations": [], "wall_s": 0.0, "distinct_extra": 0}
+    lines = [l for l in text.splitlines() if l.startswith("LOCKREPORT ")]
+    case = {"engine": "lock", "stage": name, "args": args}
+    if stalled:
+        rep["violations"].append({"property": "C20", "kind": "deadlock", "detail": f"{name}: no CPU time consumed for 30 s with operations outstanding", "case": case})
+        return rep
+    if not lines:
+        rep["inconclusive"].append(f"{name}: no report (status {status}): {text[-300:]}")
+        return rep
+    for l in lines:
+        r = json.loads(l[len("LOCKREPORT "):])
+        rep["evaluations"] += r["histories"]
+        rep["counters"][f"{name}.histories"] = rep["counters"].get(f"{name}.histories", 0) + r["histories"]
+        rep["counters"][f"{name}.ops"] = rep["counters"].get(f"{name}.ops", 0) + r["ops"]
+        rep["counters"]["thread_switches_in_final_orders"] = rep["counters"].get("thread_switches_in_final_orders", 0) + r["thread_switches_in_final_orders"]
+        rep["counters"]["distinct_final_orders"] = rep["counters"].get("distinct_final_orders", 0) + r["distinct_final_orders"]
+        rep["distinct_extra"] += r["distinct_final_orders"]
+        rep["wall_s"] += r["wall_s"]
+        for v in r["first"]:
+            rep["violations"].append({"property": "C20", "kind": "history", "detail": f"{name}: {v}", "case": case})
+        if r["violations"] and not r["first"]:
+            rep["violations"].append({"property": "C20", "kind": "history", "detail": f"{name}: {r['violations']} violations", "case": case})
+    if len(rep["samples"]) == 0:
+        rep["samples"].append({"stage": name, "args": args, "report": json.loads(lines[0][len("LOCKREPORT "):])})
+    return rep
+
+
+def stage_lock_native(stage, prop, tier, seed, workdir, build, env, log):
+    binary, err = build(stage["profile"], "vh-lock")
+    if binary is None:
+        return {"inconclusive": [err]}
+    reports, inconclusive = [], []
+    t0 = time.time()
+    for args in stage["runs"]:
+        a = [str(x) for x in args] + ["--seed", str(seed)]
+        status, text, stalled = _run_watch([binary] + a, env, None, stage.get("timeout", 600))
+        rep = _lock_report("native", text, status, stalled, a)
+        if status not in (0, 1) and not stalled and not rep["violations"]:
+            inconclusive.append(f"native lock run ended with status {status}")
+        reports.append(rep)
+    return {"reports": reports, "inconclusive": inconclusive,
+            "info": {"stage": stage["name"], "runs": len(stage["runs"]), "wall_s": round(time.time() - t0, 1)}}
+
+
+def _sanitizer_verdict(text):
+    """A sanitizer report counts against the repository only if a frame under /repo/crates/ (or the lock
+    harness itself) is on a stack; a report wholly inside a dependency makes the stage inconclusive."""
+    blocks = [b for b in text.split("\n\n") if ("Undefined Behavior" in b or "data race" in b.lower() or "deadlock" in b.lower())]
+    if not blocks:
+        return None, None
+    for b in blocks:
+        if "/crates/" in b or "vh-lock" in b or "vh-mini" in b:
+            return "violation", b[:600]
+    return "inconclusive", blocks[0][:400]
+
+
+def stage_lock_miri(stage, prop, tier, seed, workdir, build, env, log):
+    """StdLock histories under Miri: every seed is another schedule; Miri reports data races,
+    UB and deadlocks itself, the history checker runs inside the interpreted program."""
+    e = dict(env)
+    shards = stage.get("shards", 1)
+    per = stage.get("seeds_per_shard", 8)
+    t0 = time.time()
+    procs = []
+    harness = os.path.join(os.path.dirname(os.path.dirname(os.path.abspath(__file__))), "harness")
+    tdir = os.path.join(os.path.dirname(harness), "target-miri")
+    # build once (first shard compiles, the others would race on the target dir)
+    e["MIRIFLAGS"] = "-Zmiri-ignore-leaks"
+    b = subprocess.run(["cargo", "+nightly", "miri", "run", "--offline", "-p", stage.get("pkg", "vh-lock"), "--target-dir", tdir, "--",
+                        "--histories", "1", "--threads", "2", "--ops", "1"], cwd=harness, env=e, stdout=subprocess.PIPE, stderr=subprocess.STDOUT, text=True)
+    if b.returncode != 0 and "LOCKREPORT" not in b.stdout:
+        return {"inconclusive": [f"miri build/run failed: {b.stdout[-500:]}"]}
+    base = (seed * 1000) % 100000
+    for s in range(shards):
+        e2 = dict(e)
+        lo = base + s * per
+        e2["MIRIFLAGS"] = f"-Zmiri-ignore-leaks -Zmiri-many-seeds={lo}..{lo + per}"
+        cmd = ["cargo", "+nightly", "miri", "run", "--offline", "-p", stage.get("pkg", "vh-lock"), "--target-dir", tdir, "--"] + [str(x) for x in stage["args"]]
+        procs.append((lo, subprocess.Popen(cmd, cwd=harness, env=e2, stdout=subprocess.PIPE, stderr=subprocess.STDOUT, text=True)))
+    reports, inconclusive = [], []
+    for lo, p in procs:
+        try:
+            out, _ = p.communicate(timeout=stage.get("timeout", 900))
+        except subprocess.TimeoutExpired:
+            p.kill()
+            out, _ = p.communicate()
+            inconclusive.append(f"miri shard at seed {lo}: watchdog fired")
+            continue
+        rep = _lock_report("miri", out, p.returncode, False, stage["args"])
+        rep["counters"]["miri.seeds"] = per
+        verdict, block = _sanitizer_verdict(out)
+        if verdict == "violation":
+            rep["violations"].append({"property": "C20", "kind": "miri-report", "detail": block, "case": {"engine": "lock", "stage": "miri", "seed_range": [lo, lo + per], "args": stage["args"]}})
+        elif verdict == "inconclusive":
+            inconclusive.append(f"miri report outside the repository's code: {block}")
+        elif p.returncode != 0 and not rep["violations"]:
+            inconclusive.append(f"miri shard at seed {lo} exited {p.returncode}: {out[-300:]}")
+        reports.append(rep)
+    return {"reports": reports, "inconclusive": inconclusive,
+            "info": {"stage": stage["name"], "miri_seeds": shards * per, "wall_s": round(time.time() - t0, 1)}}
+
+
+def stage_lock_tsan(stage, prop, tier, seed, workdir, build, env, log):
+    """ThreadSanitizer build (-Zbuild-std) of the lock harness."""
+    harness = os.path.join(os.path.dirname(os.path.dirname(os.path.abspath(__file__))), "harness")
+    tdir = os.path.join(os.path.dirname(harness), "target-tsan")
+    e = dict(env)
+    e["RUSTFLAGS"] = "-Zsanitizer=thread --cfg essential_base_verif"
+    t0 = time.time()
+    pkg = stage.get("pkg", "vh-lock")
+    b = subprocess.run(["cargo", "+nightly", "build", "--offline", "-Zbuild-std", "--target", "x86_64-unknown-linux-gnu", "--release", "-p", pkg,
+                        "--target-dir", tdir], cwd=harness, env=e, stdout=subprocess.PIPE, stderr=subprocess.STDOUT, text=True)
+    if b.returncode != 0:
+        return {"inconclusive": [f"tsan build failed: {b.stdout[-600:]}"]}
+    binary = os.path.join(tdir, "x86_64-unknown-linux-gnu", "release", pkg)
+    e2 = dict(env)
+    e2["TSAN_OPTIONS"] = "halt_on_error=0 report_signal_unsafe=0"
+    reports, inconclusive = [], []
+    for args in stage["runs"]:
+        a = [str(x) for x in args] + ["--seed", str(seed)]
+        status, text, stalled = _run_watch([binary] + a, e2, None, stage.get("timeout", 900))
+        rep = _lock_report("tsan", text, status, stalled, a)
+        n_reports = text.count("WARNING: ThreadSanitizer")
+        rep["counters"]["tsan.reports"] = n_reports
+        if n_reports:
+            verdict, block = _sanitizer_verdict(text.replace("==================", "\n\n"))
+            if verdict == "violation" or "/crates/" in text:
+                rep["violations"].append({"property": prop, "kind": "tsan-report", "detail": text[text.find("WARNING: ThreadSanitizer"):][:600], "case": {"engine": "lock", "stage": "tsan", "args": a}})
+            else:
+                inconclusive.append("tsan report outside the repository's code: " + text[text.find("WARNING: ThreadSanitizer"):][:300])
+        reports.append(rep)
+    return {"reports": reports, "inconclusive": inconclusive,
+            "info": {"stage": stage["name"], "tsan_build_and_run_s": round(time.time() - t0, 1)}}
